@@ -623,6 +623,277 @@ def l0_probe(form, alias, newname, recv, shape, pool):
     return bad, (tuple(b[0] for b in bad), log[0][0] if log else None), static_nodispatch
 
 
+# =========================================================================== reference model of access paths (pure)
+def explicit_path_model(mro_r, mro_of, old_of, new_of, unbound=True):
+    """Plain-Python model of name resolution, on the STRUCTURE of a hierarchy only.
+
+    mro_r: the receiver class's MRO (any hashable class keys, `object` left out); mro_of(K): MRO of K;
+    old_of(K) / new_of(K): what K's OWN body declares under the old / new name (None when nothing).
+    Returns one row per access path: ('ordinary', None), ('unbound', i) = K.old(obj) and ('super', i) =
+    super(K, obj).old() with K = mro_r[i]; row = dict(path, old_cls, old, pair) where `old` is what the path finds
+    under the old name (declared in old_cls) and `pair` what THE SAME path finds under the new name."""
+    def first(seq, f):
+        for k in seq:
+            v = f(k)
+            if v is not None:
+                return k, v
+        return None, None
+
+    paths = [(('ordinary', None), list(mro_r))]
+    if unbound:
+        paths += [(('unbound', i), list(mro_of(k))) for i, k in enumerate(mro_r)]
+    paths += [(('super', i), list(mro_r[i + 1:])) for i in range(len(mro_r) - 1)]
+    rows = []
+    for p, seq in paths:
+        ko, o = first(seq, old_of)
+        _, n = first(seq, new_of)
+        rows.append(dict(path=p, old_cls=ko, old=o, pair=n))
+    return rows
+
+
+def path_expectation(rows, row):
+    """-> (mode, expected replacement, candidates).
+    'ordinary'  : the path finds the alias the receiver itself resolves - the call is indistinguishable from obj.old():
+                  the replacement the RECEIVER resolves (the core clause of the property);
+    'shadowed'  : the path finds an alias that a subclass of its declaring class re-declares (only explicit calls get
+                  there): the function the same explicit call of the new name runs, when all explicit paths reaching
+                  this alias agree on it;
+    'undecidable': they do not agree (the statement cannot be met for all of them at once);
+    'not-an-alias': the path finds no alias (a plain method / nothing)."""
+    if row['old'] is None or row['old'][0] != 'alias':
+        return 'not-an-alias', None, ()
+    own = rows[0]
+    if own['old_cls'] == row['old_cls'] and own['old'] == row['old']:
+        return 'ordinary', own['pair'], (own['pair'],)
+    cands = sorted({r['pair'] for r in rows[1:] if r['old_cls'] == row['old_cls'] and r['old'] == row['old']}, key=repr)
+    if len(cands) == 1 and cands[0] is not None:
+        return 'shadowed', cands[0], tuple(cands)
+    return 'undecidable', None, tuple(cands)
+
+
+# =========================================================================== L0H: hierarchies x access paths (toy level)
+H_OPTIONS = ['inherit', 'ov-new', 'redecl', 'realias', 'plain-old']
+H_KINDS = ['method', 'classmethod']
+H_NAMES = {'method': ('oldM', 'new_m'), 'classmethod': ('oldC', 'new_c')}
+
+
+def h_specs(tier):
+    """Hierarchies (tuple of (class name, bases, option)); the receiver is the LAST class.  Chains of every depth
+    0..3 (thorough: 4), diamonds D(L, M) over one root (thorough: plus a class below the diamond)."""
+    out = [(('R0', (), 'root'),)]
+    maxd = 3 if tier == 'quick' else 4
+    for d in range(1, maxd + 1):
+        for opts in itertools.product(H_OPTIONS, repeat=d):
+            spec = [('R0', (), 'root')]
+            for i, o in enumerate(opts):
+                spec.append((f'A{i + 1}', (spec[-1][0],), o))
+            out.append(tuple(spec))
+    for ol, om, od in itertools.product(H_OPTIONS, repeat=3):
+        dia = (('R0', (), 'root'), ('L', ('R0',), ol), ('M', ('R0',), om), ('D', ('L', 'M'), od))
+        out.append(dia)
+        if tier != 'quick':
+            for oe in H_OPTIONS:
+                out.append(dia + (('E', ('D',), oe),))
+    return out
+
+
+def h_shapes(tier):
+    if tier == 'quick':
+        return [(0, (), False), (1, ('k1',), False), (2, (), False)]
+    return [(n, k, False) for n in (0, 1, 2, 5) for k in ((), ('k1', 'k2'))]
+
+
+def h_abstract(spec):
+    """The hierarchy as the reference model sees it: MROs (C3, computed on bare dummy classes) and, per class, what its
+    body declares: new -> tag of the function; old -> ('alias', declaring class, tag of the captured function) |
+    ('plain', tag)."""
+    dummies, mro, decl = {}, {}, {}
+    for name, bases, opt in spec:
+        dummies[name] = type(name, tuple(dummies[b] for b in bases), {})
+        mro[name] = [k.__name__ for k in dummies[name].__mro__ if k is not object]
+
+        def res(start, what):
+            for k in mro[start]:
+                if k in decl and decl[k][what] is not None:
+                    return decl[k][what]
+            return None
+
+        d = dict(new=None, old=None)
+        if opt in ('root', 'redecl'):
+            d['new'] = f'{name}.new'
+            d['old'] = ('alias', name, f'{name}.new')
+        elif opt == 'ov-new':
+            d['new'] = f'{name}.new'
+        elif opt == 'realias':
+            d['old'] = ('alias', name, res(bases[0], 'new'))
+        elif opt == 'plain-old':
+            d['old'] = ('plain', f'{name}.old-plain')
+        decl[name] = d
+    return mro, decl
+
+
+_H_SRC = {}
+
+
+def h_source(spec, kind):
+    key = (spec, kind)
+    if key in _H_SRC:
+        return _H_SRC[key]
+    old, new = H_NAMES[kind]
+    cm = kind == 'classmethod'
+    first = 'cls' if cm else 'self'
+    deco = '    @classmethod\n' if cm else ''
+    fn = '.__func__' if cm else ''
+    lines = []
+    for name, bases, opt in spec:
+        lines.append(f'class {name}({", ".join(bases)}):')
+        lines.append(f'    """{opt}"""')
+        if opt in ('root', 'redecl', 'ov-new'):
+            lines.append(f'{deco}    def {new}({first}, *a, **k):\n        return __log__("{name}.new", {first}, a, k)')
+        if opt in ('root', 'redecl'):
+            lines.append(f'{deco}    @deprecated({new}{fn})\n    def {old}({first}, *a, **k):\n        pass')
+        if opt == 'realias':
+            lines.append(f'{deco}    @deprecated({bases[0]}.{new}{fn})\n    def {old}({first}, *a, **k):\n        pass')
+        if opt == 'plain-old':
+            lines.append(f'{deco}    def {old}({first}, *a, **k):\n        return __log__("{name}.old-plain", {first}, a, k)')
+    _H_SRC[key] = compile('\n'.join(lines) + '\n', f'<c20 toy hierarchy {kind}>', 'exec')
+    return _H_SRC[key]
+
+
+def h_build(spec, kind):
+    """The hierarchy declared for real (class bodies, the real decorator of the tree under test)."""
+    from biogeme.deprecated import deprecated
+
+    log = []
+
+    def __log__(tag, recv, a, k):
+        e = (tag, recv, a, k)
+        log.append(e)
+        return e
+
+    ns = {'deprecated': deprecated, '__log__': __log__, '__name__': 'c20_toy_hierarchy'}
+    exec(h_source(spec, kind), ns)
+    return ns, log
+
+
+def h_paths(spec, kind):
+    """All access paths on the receiver (= last class) with the model's verdict: list of (path, mode, target, cands)."""
+    mro, decl = h_abstract(spec)
+    r = spec[-1][0]
+    rows = explicit_path_model(mro[r], lambda k: mro[k], lambda k: decl[k]['old'], lambda k: decl[k]['new'],
+                               unbound=(kind == 'method'))
+    out = []
+    for row in rows:
+        mode, target, cands = path_expectation(rows, row)
+        form, i = row['path']
+        kname = mro[r][i] if i is not None else None
+        if kind == 'classmethod':
+            forms = [('ordinary-class', None), ('ordinary-inst', None)] if form == 'ordinary' else \
+                [('super-class', kname), ('super-inst', kname)]
+        else:
+            forms = [(form, kname)]
+        for f in forms:
+            out.append((f, mode, target, cands, row['pair'], row['old']))
+    return out
+
+
+def h_probe(spec, kind, path, shape, pool, built=None):
+    """One call of the old name through one access path.  Returns (bad, outcome, mode, pairing_differs) or None."""
+    old, new = H_NAMES[kind]
+    entry = [p for p in h_paths(spec, kind) if p[0] == tuple(path)]
+    if not entry:
+        return None
+    (form, kname), mode, target, cands, pair, olddecl = entry[0]
+    if mode == 'not-an-alias':
+        return None
+    ns, log = built if built is not None else h_build(spec, kind)
+    del log[:]
+    pos, kw, _, _ = make_args(shape, pool)
+    rcls = ns[spec[-1][0]]
+    obj = object.__new__(rcls)
+    recv = obj if kind == 'method' else rcls
+    res = exc = None
+    with Observe() as obs:
+        try:
+            if form == 'ordinary':
+                res = getattr(obj, old)(*pos, **kw)
+            elif form == 'unbound':
+                res = getattr(ns[kname], old)(obj, *pos, **kw)
+            elif form == 'super':
+                res = getattr(super(ns[kname], obj), old)(*pos, **kw)
+            elif form == 'ordinary-class':
+                res = getattr(rcls, old)(*pos, **kw)
+            elif form == 'ordinary-inst':
+                res = getattr(obj, old)(*pos, **kw)
+            elif form == 'super-class':
+                res = getattr(super(ns[kname], rcls), old)(*pos, **kw)
+            elif form == 'super-inst':
+                res = getattr(super(ns[kname], obj), old)(*pos, **kw)
+            else:
+                raise ValueError(form)
+        except BaseException as e:  # noqa
+            exc = e
+    bad = []
+    reach = {'ordinary': 'alias-does-not-reach-receivers-replacement',
+             'shadowed': 'explicit-call-of-ancestors-alias-does-not-run-ancestors-replacement',
+             'undecidable': 'alias-reaches-none-of-the-candidate-replacements'}[mode]
+    reached = log[0][0] if log else None
+    if exc is not None:
+        bad.append(('alias-raises', f'{type(exc).__name__}: {exc}', 'no exception', repr(exc)))
+    elif len(log) != 1:
+        bad.append((reach, f'{len(log)} calls of a replacement ({[e[0] for e in log]})', 1, len(log)))
+    else:
+        tag, rv, a, k = log[0]
+        ok = (tag == target) if mode != 'undecidable' else (tag in cands)
+        if not ok:
+            want = target if mode != 'undecidable' else ' or '.join(map(str, cands))
+            bad.append((reach, f'ran {tag}, the same call of the new name runs {want}'
+                        + (f' (the receiver itself resolves {pair!r} on this path)' if mode == 'ordinary' and pair != target else ''),
+                        want, tag))
+        if rv is not recv:
+            bad.append(('arguments-not-passed-through', f'receiver {rv!r} instead of {recv!r}', repr(recv), repr(rv)))
+        if not same_objs(a, pos) or not same_kw(k, kw):
+            bad.append(('arguments-not-passed-through', f'{a!r} {k!r} instead of {pos!r} {kw!r}', repr((pos, kw)), repr((a, k))))
+        if res is not log[0]:
+            bad.append(('result-not-passed-through', f'{res!r}', 'the replacement\'s return value', repr(res)))
+    dw = obs.dep_warnings()
+    if len(dw) != 1:
+        bad.append(('warning-count', f'{len(dw)} DeprecationWarning(s)', 1, len(dw)))
+    elif not re.search(r'(?<![A-Za-z0-9_])' + re.escape(new) + r'(?![A-Za-z0-9_])', str(dw[0].message)):
+        bad.append(('warning-does-not-name-replacement', str(dw[0].message), new, str(dw[0].message)))
+    if obs.other_warnings() or obs.records or obs.out:
+        bad.append(('adds-more-than-the-warning', f'{len(obs.other_warnings())} other warnings, {obs.records}, {obs.out[:60]!r}', 'nothing', 'something'))
+    if vars(obj):
+        bad.append(('adds-more-than-the-warning', f'receiver state changed: {sorted(vars(obj))}', {}, sorted(vars(obj))))
+    own_cls = reached.split('.')[0] == spec[-1][0] if reached else None
+    return bad, (mode, tuple(b[0] for b in bad), form, own_cls), mode, (mode == 'ordinary' and pair != target)
+
+
+def h_run(rec, kind, specs, tier, only=None):
+    for spec in specs:
+        built = h_build(spec, kind)
+        for (path, mode, target, cands, pair, olddecl) in h_paths(spec, kind):
+            if mode == 'not-an-alias':
+                rec.count('l0h_paths_that_find_no_alias')
+                continue
+            if mode == 'undecidable':
+                rec.count('l0h_paths_explicit_calls_disagree_weak_oracle_only')
+            for shape in h_shapes(tier):
+                for pool in POOLS:
+                    r = h_probe(spec, kind, path, shape, pool, built)
+                    if r is None:
+                        continue
+                    bad, outcome, mode, differs = r
+                    if differs:
+                        rec.count('l0h_explicit_call_indistinguishable_from_ordinary_call_pairing_differs')
+                    opts = tuple((n, b, o) for n, b, o in spec)
+                    rec.case(('L0H', kind, opts, path, shape, pool), (kind, opts, path, shape, pool, outcome), outcome=('L0H',) + outcome)
+                    _viol(rec, 'L0H hierarchy x access path', f'decorator-level:{kind}:{mode}-alias',
+                          f'{kind} alias, hierarchy {[(n, list(b), o) for n, b, o in spec]}, path {path}', bad,
+                          dict(part='L0H', kind=kind, spec=[[n, list(b), o] for n, b, o in spec], path=list(path),
+                               shape=[shape[0], list(shape[1]), shape[2]], pool=pool))
+
+
 # =========================================================================== L1: dispatch probes
 def _get_class(cmod, cqual):
     return discover()['classes'][(cmod, cqual)]
